@@ -84,6 +84,8 @@ Alphabet(f) ==
   \* abstract state; the one state change is the in-place normalisation of the stored data
   ELSE {<<"normalize_original_data", 0>>}
 
+Kept(mode) == IF mode = "link_density" \/ mode = "kept_threshold" THEN "kept_threshold" ELSE mode
+Observable(a) == ~("MODE" \in DOMAIN a /\ a.MODE = "kept_threshold")
 Apply(f, a, m) ==
   LET name == m[1]  v == m[2] IN
   IF name \in {"adjacency", "set_edge_list", "adjacency~same", "randomly_rewire", "randomly_rewire_geomodel_I",
@@ -101,9 +103,13 @@ Apply(f, a, m) ==
   ELSE IF name = "set_threshold" THEN [a EXCEPT !.MODE = "threshold", !.P = v]
   ELSE IF name = "set_link_density" THEN [a EXCEPT !.MODE = "link_density", !.P = v]
   ELSE IF name = "set_non_local" THEN [a EXCEPT !.NL = v]
-  ELSE IF name = "set_winter_only" THEN [a EXCEPT !.WO = v]
-  ELSE IF name = "set_directed" THEN [a EXCEPT !.DIR = v]
-  ELSE IF name = "set_max_delay" THEN [a EXCEPT !.MD = v]
+  \* data-driven climate networks keep their THRESHOLD when the similarity is recomputed: a network whose density
+  \* was prescribed goes to the mode "kept_threshold" (the threshold derived from the OLD similarity stays), in
+  \* which the abstract state does not determine the network - nothing is observed there (no fresh twin exists),
+  \* but the history goes on: the next set_threshold / set_link_density makes the network determined again
+  ELSE IF name = "set_winter_only" THEN [a EXCEPT !.WO = v, !.MODE = Kept(a.MODE)]
+  ELSE IF name = "set_directed" THEN [a EXCEPT !.DIR = v, !.MODE = Kept(a.MODE)]
+  ELSE IF name = "set_max_delay" THEN [a EXCEPT !.MD = v, !.MODE = Kept(a.MODE)]
   ELSE IF name = "set_window" THEN [a EXCEPT !.WIN = v]
   ELSE IF name = "set_global_window" THEN [a EXCEPT !.WIN = 0]
   ELSE IF name = "embedding" THEN [a EXCEPT !.EMB = v]
@@ -114,15 +120,10 @@ Apply(f, a, m) ==
 CONSTANTS Family, Depth
 VARIABLES abs, hist
 Init == abs = Init0(Family) /\ hist = <<>>
-\* data-driven climate networks keep the THRESHOLD when the similarity is recomputed (a prescribed density
-\* is turned into a threshold when it is set), so the similarity-changing setters are driven from
-\* threshold mode only - there the abstract state determines the network
 \* the geographical rewirings loop until they have found the requested number of admissible swaps: they are
 \* driven on the two fixture graphs only, where a swap exists (model III, which also needs equal degrees, is
 \* left to C17)
-Enabled(f, a, m) == /\ (f \in {"tsonis", "hilbert", "spearman", "partialcorr", "mutualinfo", "havlin"}
-                        /\ m[1] \in {"set_winter_only", "set_directed", "set_max_delay"}) => a.MODE = "threshold"
-                    /\ m[1] \in {"randomly_rewire_geomodel_I", "randomly_rewire_geomodel_II"} => a.A \in {1, 2}
+Enabled(f, a, m) == m[1] \in {"randomly_rewire_geomodel_I", "randomly_rewire_geomodel_II"} => a.A \in {1, 2}
 Mutate(m) == Len(hist) < Depth /\ Enabled(Family, abs, m) /\ abs' = Apply(Family, abs, m) /\ hist' = Append(hist, m)
 Next == \E m \in Alphabet(Family) : Mutate(m)
 \* every reachable history is a behaviour to be replayed (printed once per distinct history)
